@@ -137,7 +137,12 @@ let obsline (s : M.store) : M.store * string =
     let a = M.st_abs s' in
     let (((at, ae), amn), amx) = M.a_obs a in
     let la = Printf.sprintf "total=%s empty=%d min=%s max=%s bins=%s" (fstr_q at) (if ae then 1 else 0) (optz amn) (optz amx) (bins_str a) in
-    (s', if la = line then line else "MODEL-INCONSISTENT B[" ^ line ^ "] A[" ^ la ^ "]")
+    (* the paginated store's MinIndex/MaxIndex transcribed loop by loop must agree with the scan-based definitions *)
+    let loops_ok = (match s' with
+        | M.SP p -> optz (M.xp_min_go p) = optz mn && optz (M.xp_max_go p) = optz mx
+        | _ -> true) in
+    (s', if la <> line then "MODEL-INCONSISTENT B[" ^ line ^ "] A[" ^ la ^ "]"
+         else if not loops_ok then "MODEL-INCONSISTENT paginated-loops min/max " ^ line else line)
 
 (* ---------- instruction execution ---------- *)
 let z_of_tok t = z_of (Z.of_string t)
@@ -272,8 +277,11 @@ let exec (toks : string list) (side : string list) (impl_result : string) : stri
      | M.RwRefused -> "err bad-factor"
      | M.RwPanic -> Hashtbl.replace stores r None; "panic")
   | ["rank"; r; w] ->
-    let (s', k) = M.st_key_at_rank (get_store r) (qc_of_hex w) in
-    Hashtbl.replace stores r (Some s'); Z.to_string (to_z k)
+    let s0 = get_store r in
+    let (s', k) = M.st_key_at_rank s0 (qc_of_hex w) in
+    Hashtbl.replace stores r (Some s');
+    let loops_ok = (match s0 with M.SP p -> Z.equal (to_z (snd (M.xp_key_at_rank_go p (qc_of_hex w)))) (to_z k) | _ -> true) in
+    if loops_ok then Z.to_string (to_z k) else "MODEL-INCONSISTENT paginated-loops rank " ^ Z.to_string (to_z k)
   | ["obs"; r] -> let (s', l) = obsline (get_store r) in Hashtbl.replace stores r (Some s'); l
   | ["binsch"; r] ->
     (match M.st_foreach (get_store r) with
